@@ -74,7 +74,7 @@ EncNet(n, tr) ==          \* tr = <<ip number, transport bytes>>; returns <<ethe
              ihl == CASE n.ihl = "ok" -> 5 [] n.ihl = "opt" -> 6 [] n.ihl = "four" -> 4 [] n.ihl = "zero" -> 0 [] n.ihl = "max" -> 15
              hl == IF ihl >= 5 THEN 4 * ihl ELSE 20
              ttl == hl + Len(au[2])
-             tl == CASE n.tl = "ok" -> ttl [] n.tl = "minus" -> ttl - 1 [] n.tl = "plus" -> ttl + 1
+             tl == CASE n.tl = "ok" -> ttl [] n.tl = "minus" -> ttl - 1 [] n.tl = "plus" -> ttl + 1 [] n.tl = "max" -> 65535
                      [] n.tl = "hdrminus" -> hl - 1 [] n.tl = "hdr" -> hl [] n.tl = "minus3" -> Max(ttl - 3, 0) [] n.tl = "twenty" -> 20
              fr == CASE n.frag = "no" -> <<64, 0>> [] n.frag = "mf" -> <<32, 0>> [] n.frag = "off" -> <<0, 5>> [] n.frag = "rsv" -> <<192, 0>>
              ver == CASE n.ver = "ok" -> 4 [] n.ver = "six" -> 6 [] n.ver = "five" -> 5 [] n.ver = "zero" -> 0
@@ -85,6 +85,8 @@ EncNet(n, tr) ==          \* tr = <<ip number, transport bytes>>; returns <<ethe
              tpl == Len(ch[2])
              pl == CASE n.pl = "ok" -> tpl [] n.pl = "zero" -> 0 [] n.pl = "minus" -> Max(tpl - 1, 0) [] n.pl = "plus" -> tpl + 1
                      [] n.pl = "minus9" -> Max(tpl - 9, 0)
+                    \* the largest values of the 16 bit field: 40 + payload length no longer fits into 16 bits
+                    [] n.pl = "max" -> 65535 [] n.pl = "wrap" -> 65496 [] n.pl = "wrapplus" -> 65497 + tpl
              ver == CASE n.ver = "ok" -> 6 [] n.ver = "four" -> 4 [] n.ver = "five" -> 5 [] n.ver = "zero" -> 0
          IN <<ET_IPV6, <<ver * 16 + 10, 188, 205, 239>> \o Be16(pl) \o <<ch[1], 64>> \o Pat(16, 1) \o Pat(16, 101) \o ch[2] \o Rep(n.trail, 238)>>
     [] n.k = "arp" ->
@@ -149,7 +151,7 @@ Transports ==
 
 V4s ==
   {[DefV4 EXCEPT !.ihl = x] : x \in {"opt", "four", "zero", "max"}}
-  \cup {[DefV4 EXCEPT !.tl = x, !.trail = t] : x \in {"ok", "minus", "plus", "hdrminus", "hdr", "minus3"}, t \in {0, 3}}
+  \cup {[DefV4 EXCEPT !.tl = x, !.trail = t] : x \in {"ok", "minus", "plus", "hdrminus", "hdr", "minus3", "max"}, t \in {0, 3}}
   \cup {[DefV4 EXCEPT !.frag = x] : x \in {"mf", "off", "rsv"}}
   \cup {[DefV4 EXCEPT !.ver = x] : x \in {"six", "five", "zero"}}
   \cup {[DefV4 EXCEPT !.auth = x, !.trail = t] : x \in {"ok", "zero", "cut", "big"}, t \in {0, 3}}
@@ -170,7 +172,8 @@ Chains ==
         <<<<44, "ok">>, <<44, "frag">>, <<51, "ok">>, <<51, "zero">>>>,
         <<<<60, "ok">>, <<0, "ok">>>>}
 V6s ==
-  {[DefV6 EXCEPT !.pl = x, !.trail = t] : x \in {"ok", "zero", "minus", "plus", "minus9"}, t \in {0, 3}}
+  {[DefV6 EXCEPT !.pl = x, !.trail = t] : x \in {"ok", "zero", "minus", "plus", "minus9", "max", "wrap", "wrapplus"}, t \in {0, 3}}
+  \cup {[DefV6 EXCEPT !.pl = x, !.chain = c] : x \in {"max", "wrap"}, c \in {<<<<60, "ok">>>>, <<<<44, "ok">>>>}}
   \cup {[DefV6 EXCEPT !.ver = x] : x \in {"four", "five", "zero"}}
   \cup {[DefV6 EXCEPT !.chain = c] : c \in Chains}
   \cup {[DefV6 EXCEPT !.chain = <<<<0, "jumbo">>>>, !.pl = x, !.trail = t] : x \in {"zero", "ok"}, t \in {0, 3}}
